@@ -14,6 +14,7 @@ SmallKeys == { LitKey(Num(0)), LitKey(Str("a")), LitKey(Str("A")), LitKey(ArrT(<
 Vals == { Num(5), Num(6) }
 
 Ops ==   { [op |-> "set", m |-> m, key |-> k, val |-> v] : m \in MapVars, k \in SmallKeys, v \in Vals }
+    \cup { [op |-> "set", m |-> m, key |-> LitKey(Str("a")), val |-> ArrT(<<Num(1)>>)] : m \in MapVars }      \* an array as value (see mutval)
     \cup { [op |-> "get", m |-> m, key |-> k] : m \in MapVars, k \in SmallKeys }
     \cup { [op |-> "del", m |-> m, key |-> k] : m \in MapVars, k \in SmallKeys }
     \cup { [op |-> "in", m |-> m, key |-> k] : m \in MapVars, k \in SmallKeys }
@@ -28,6 +29,7 @@ Ops ==   { [op |-> "set", m |-> m, key |-> k, val |-> v] : m \in MapVars, k \in 
     \cup { [op |-> "newkj"] }
     \cup { [op |-> "mutj"] }
     \cup { [op |-> "mutkeys", m |-> m] : m \in MapVars }
+    \cup { [op |-> "mutval", m |-> m, key |-> k] : m \in MapVars, k \in {LitKey(Num(0)), LitKey(Str("a"))} }
 
 vars == <<st, prev, lastop, hist>>
 Init == st = InitState /\ prev = InitState /\ lastop = [op |-> "init"] /\ hist = <<>>
